@@ -189,6 +189,9 @@ def gen_sequence_c04(rng):
             lv.append(0)
         else:
             lv = [0] + lv
+    if rng.random() < 0.1 and 0 in lv:
+        q = lv.index(0)
+        lv = lv[:q] + [0] * rng.randint(1, 2) + lv[q:]          # a dwell at zero load
     if rng.random() < 0.12:                # the recording starts at zero load (one or several samples)
         lv = [0] * rng.choice([1, 1, 2, 3]) + lv
     if len(set(lv)) < 2:
@@ -300,6 +303,19 @@ def as_container(loads, kind):
         out = loads.copy()
         out[out == 0] = -0.0
         return out
+    if kind == "mixedzero":
+        out = loads.copy()                  # neighbouring zeros of both signs (np.round of small values)
+        flip = False
+        for q in range(len(out)):
+            if out[q] == 0:
+                out[q] = -0.0 if flip else 0.0
+                flip = not flip
+        return out
+    if kind == "series_ls":
+        # one point cut out of multi-point blocks: a one-level index named load_step whose labels repeat
+        half = max(1, len(loads) // 2)
+        labels = list(range(half)) + list(range(len(loads) - half))
+        return pd.Series(loads, index=pd.Index(labels, name="load_step"))
     return loads
 
 
@@ -363,10 +379,20 @@ def collective_rows(rec):
         idx = [(int(h), int(a)) for h, a in c.index]
         # the recorder's individual properties are views of the same recording
         for attr, col in PROPS_OF_RECORDER.items():
-            v = np.asarray(getattr(rec, attr)).reshape(-1)
+            got = getattr(rec, attr)
+            v = np.asarray(got).reshape(-1)
             w = np.asarray(cols[col]).reshape(-1)
             if len(w) and (len(v) != len(w) or not np.array_equal(np.asarray(v, dtype=np.float64), np.asarray(w, dtype=np.float64), equal_nan=True)):
                 raise ValueError("recorder.%s disagrees with recorder.collective[%r]" % (attr, col))
+            # derived quantities are computed results: what the caller does with the array it got
+            # (scaling it in place, clipping it) must not change what the recorder reports next
+            if attr in ("S_a", "S_m", "epsilon_a", "epsilon_m", "R") and isinstance(got, np.ndarray) and got.flags.writeable and got.size:
+                got *= 1000.0
+        if len(idx):
+            c2 = rec.collective
+            for k in ("S_a", "S_m", "epsilon_a", "epsilon_m", "R"):
+                if not np.array_equal(np.asarray(c2[k].to_numpy(), dtype=np.float64), np.asarray(cols[k], dtype=np.float64), equal_nan=True):
+                    raise ValueError("recorder.collective[%r] changed after the caller modified the array returned by recorder.%s" % (k, k))
     except Exception as e:    # noqa
         raise RealCodeError("collective", e)
     rows = []
@@ -394,7 +420,7 @@ def generate(prop, rng, tier):
         tr = {"world": NAME, "levels": lv, "step": step, "law": rng.choice(["EN", "EN", "EN", "SB"]),
               "mat": rng.randrange(len(MATERIALS)), "bins": rng.choice([10, 20, 50]),
               "twin": None,
-              "container": rng.choice(["f64", "f64", "f64", "list", "i64", "i32", "i16", "series", "f32int", "negzero"]),
+              "container": rng.choice(["f64", "f64", "f64", "list", "i64", "i32", "i16", "series", "f32int", "negzero", "mixedzero", "series_ls"]),
               "peek": rng.choice(["none", "none", "before", "between", "both"]),
               "ckpt": rng.choice(["none", "none", "none", "deepcopy", "pickle", "fork"])}
         if rng.random() < 0.3:
@@ -520,6 +546,7 @@ def generate_c05_chunked(rng, tr):
     tr.update({"mode": "K4", "levels": lv, "cuts": sorted(cuts), "nodes": [[i, r] for i, r in zip(ids, ratios)],
                "ckpt": rng.choice(["none", "none", "deepcopy", "pickle"]), "ckpt_at": rng.randrange(64),
                "law_order": rng.choice(["samples", "samples", "sorted", "reversed"]),
+               "chunk_row_order": rng.choice([0, 0, 1, 2, 3]),
                "final_flush": rng.random() < 0.6, "restart_load_step": rng.random() < 0.3, "max_factor": 1.0731,
                "shared_max": rng.random() < 0.3})
     return tr
@@ -934,7 +961,11 @@ def exec_c05_chunked(trace, out, log):
     for a, b in zip(bounds[:-1], bounds[1:]):
         steps_ = range(0, b - a) if restart else range(a, b)
         idx = pd.MultiIndex.from_product([steps_, [i for i, _ in nodes]], names=["load_step", "node_id"])
-        chunks_b.append(pd.Series([lv[k] * step * r for k in range(a, b) for _, r in nodes], index=idx, dtype=np.float64))
+        ch = pd.Series([lv[k] * step * r for k in range(a, b) for _, r in nodes], index=idx, dtype=np.float64)
+        if trace.get("chunk_row_order") and (len(chunks_b) + int(trace["chunk_row_order"])) % 3 == 0 and len(nodes) > 1:
+            ch = node_major(ch, [i for i, _ in nodes])       # this block arrives grouped by node (pd.concat of per-node series)
+            out.count("probe:chunk_rows_by_node")
+        chunks_b.append(ch)
     ck, ck_at = trace.get("ckpt", "none"), int(trace.get("ckpt_at", -1)) % max(1, len(chunks_b))
     if ck != "none":
         out.count("history:checkpoint_" + ck)
